@@ -167,6 +167,62 @@ pub fn main(args: &[String]) {
     match args[0].as_str() {
         "replay" => replay(&args[1], arg_u64(args, "--seed", 1), &out),
         "record" => record(arg_u64(args, "--seed", 1), arg_u64(args, "--n", 100) as usize, &out),
+        "products" => products(arg_u64(args, "--seed", 1), arg_u64(args, "--n", 100) as usize, &out),
         _ => panic!("unknown gauss subcommand"),
     }
+}
+
+// ------------------------------------------------------------------------------------------ tensor products
+/// dmul11_ / dmul21_ / dmul22_ / douter11_ (generic), fdmul11_ / fdmul21_ / fdmul22_ (float x T), dfmul21_ / dfmul22_
+/// (T x float), fouter11_: each call recorded with its operands and result.
+pub fn products(seed: u64, n: usize, out: &str) {
+    use rateslib::dual::linalg::{dfmul21_, dfmul22_, dmul11_, dmul21_, dmul22_, douter11_, fdmul11_, fdmul21_, fdmul22_, fouter11_};
+    let mut o = Out::create(out);
+    let mut r = Rng::new(seed ^ 0x11A);
+    let names = ["p", "q", "s"];
+    for i in 0..n {
+        let kind = *r.pick(&["F", "D1", "D2"]);
+        let (m, k, nn) = (1 + r.below(3) as usize, 1 + r.below(3) as usize, 1 + r.below(3) as usize);
+        let p_tag = if kind == "F" { 0.0 } else { 0.6 };
+        let a: Vec<Vec<Ent>> = (0..m).map(|_| (0..k).map(|_| { let re = r.uniform(-2.0, 2.0); rand_ent(&mut r, re, &names, p_tag) }).collect()).collect();
+        let b: Vec<Vec<Ent>> = (0..k).map(|_| (0..nn).map(|_| { let re = r.uniform(-2.0, 2.0); rand_ent(&mut r, re, &names, p_tag) }).collect()).collect();
+        let aj = |x: &Vec<Vec<Ent>>, kd: &str| -> Value { Value::Array(x.iter().map(|row| Value::Array(row.iter().map(|e| ent_json(e, kd)).collect())).collect()) };
+        macro_rules! go {
+            ($T:ty, $mk:expr, $js:expr) => {{
+                let am = Array2::<$T>::from_shape_vec((m, k), a.iter().flatten().map($mk).collect()).unwrap();
+                let bm = Array2::<$T>::from_shape_vec((k, nn), b.iter().flatten().map($mk).collect()).unwrap();
+                let af = Array2::<f64>::from_shape_vec((m, k), a.iter().flatten().map(|e| e.re).collect()).unwrap();
+                let bf = Array2::<f64>::from_shape_vec((k, nn), b.iter().flatten().map(|e| e.re).collect()).unwrap();
+                let mat = |x: &Array2<$T>| -> Value { Value::Array(x.outer_iter().map(|row| Value::Array(row.iter().map($js).collect())).collect()) };
+                let vecj = |x: &Array1<$T>| -> Value { Value::Array(x.iter().map($js).collect()) };
+                let mut res = vec![];
+                res.push(json!({"fn":"dmul22_","l":"T","r":"T","res": mat(&dmul22_(&am.view(), &bm.view()))}));
+                res.push(json!({"fn":"fdmul22_","l":"F","r":"T","res": mat(&fdmul22_(&af.view(), &bm.view()))}));
+                res.push(json!({"fn":"dfmul22_","l":"T","r":"F","res": mat(&dfmul22_(&am.view(), &bf.view()))}));
+                // matrix x first column, first row . first column, outer(first row of A, first row of B)
+                let bcol = bm.column(0).to_owned();
+                let bcolf = bf.column(0).to_owned();
+                res.push(json!({"fn":"dmul21_","l":"T","r":"T","res": vecj(&dmul21_(&am.view(), &bcol.view()))}));
+                res.push(json!({"fn":"fdmul21_","l":"F","r":"T","res": vecj(&fdmul21_(&af.view(), &bcol.view()))}));
+                res.push(json!({"fn":"dfmul21_","l":"T","r":"F","res": vecj(&dfmul21_(&am.view(), &bcolf.view()))}));
+                let arow = am.row(0).to_owned();
+                let arowf = af.row(0).to_owned();
+                res.push(json!({"fn":"dmul11_","l":"T","r":"T","res": $js(&dmul11_(&arow.view(), &bcol.view()))}));
+                res.push(json!({"fn":"fdmul11_","l":"F","r":"T","res": $js(&fdmul11_(&arowf.view(), &bcol.view()))}));
+                let brow = bm.row(0).to_owned();
+                res.push(json!({"fn":"douter11_","l":"T","r":"T","res": mat(&douter11_(&arow.view(), &brow.view()))}));
+                let fo = fouter11_(&arowf.view(), &bf.row(0).to_owned().view());
+                res.push(json!({"fn":"fouter11_","l":"F","r":"F","res": Value::Array(fo.outer_iter().map(|row| Value::Array(row.iter().map(|x| f64_json(*x)).collect())).collect())}));
+                res
+            }};
+        }
+        let res = guard(|| match kind {
+            "F" => go!(f64, |e: &Ent| e.re, |x: &f64| f64_json(*x)),
+            "D1" => go!(Dual, |e: &Ent| e.d1(), dual_json),
+            _ => go!(Dual2, |e: &Ent| e.d2(), dual2_json),
+        });
+        let (oc, rj) = match res { Outcome::Ok(v) => ("ok", Value::Array(v)), Outcome::Panic(_) => ("panic", json!([])) };
+        o.emit(&json!({"key": format!("linalg/{}/{}", kind, i), "op":"products", "kind": kind, "A": aj(&a, kind), "B": aj(&b, kind), "o": oc, "calls": rj}));
+    }
+    eprintln!("gauss products: {} events", o.finish());
 }
